@@ -7,6 +7,12 @@ Correspondence: the real `FileUploadHandler.handle_upload` (family `direct`) and
 injected into `nauyaca.server.handler`'s namespace (`sim/store_tree.py`), against `Fs.handleUpload`
 / `Fs.protoUpload` over the symlink-tree instance of the abstract OS.
 
+Dimensions beyond request / tree / configuration: how the handler object is built (`via`: constructor, `ServerConfig(...)`,
+`ServerConfig.from_toml(file)` -> `get_upload_handler()`), lists that hold only blank entries, storage that takes only the
+first k bytes (`fsize`: the real kernel's short count under RLIMIT_FSIZE, besides the stand-in file object of `write`), and
+time (`timing`: the request completes `lead` seconds after the connection was made, a middleware chain in front of the
+handler answers after `mw` seconds, on a virtual clock; `stall`: the peer goes quiet past the request timeout).
+
 Observation: response status + the difference between recursive snapshots (paths, types, link
 targets, file bytes) of the WHOLE temporary area before and after the request.
 """
@@ -52,10 +58,54 @@ SAFE_NAMES = ["a", "b", "sub", "x y", "ü", "f.txt", "é%41", "d1", ".hid", "-n"
 # ----------------------------------------------------------------------------------------------
 # running the real code
 # ----------------------------------------------------------------------------------------------
-def make_handler(base: str, cfg: dict):
+def config_toml(updir: str, docroot: str, cfg: dict) -> str:
+    """the deployment's configuration file for this upload configuration (written by hand: no TOML writer involved)"""
+    import json
+
+    def arr(xs):
+        return "[" + ", ".join(json.dumps(x) for x in xs) + "]"
+
+    lines = ["[server]", f"document_root = {json.dumps(docroot)}", "", "[titan]", "enabled = true", f"upload_dir = {json.dumps(updir)}",
+             f"max_upload_size = {cfg['max']}", f"enable_delete = {'true' if cfg['delete'] else 'false'}"]
+    if cfg["types"] is not None:
+        lines.append(f"allowed_mime_types = {arr(cfg['types'])}")
+    if cfg["tokens"] is not None:
+        lines.append(f"auth_tokens = {arr(cfg['tokens'])}")
+    return "\n".join(lines) + "\n"
+
+
+def make_handler(base: str, cfg: dict, via: str = "ctor"):
+    """the upload handler for configuration `cfg`, built the way `via` says:
+    ctor    FileUploadHandler(...) called directly
+    config  ServerConfig(...).get_upload_handler()                    (what `nauyaca serve` does with its options)
+    toml    ServerConfig.from_toml(<file>).get_upload_handler()       (what `nauyaca serve --config` does)"""
     hm = T.patch_handler_module()
-    return hm.FileUploadHandler(upload_dir=os.path.join(base, UP), max_size=cfg["max"], allowed_types=cfg["types"],
-                                auth_tokens=set(cfg["tokens"]) if cfg["tokens"] is not None else None, enable_delete=cfg["delete"])
+    updir = os.path.join(base, UP)
+    if via == "ctor":
+        return hm.FileUploadHandler(upload_dir=updir, max_size=cfg["max"], allowed_types=cfg["types"],
+                                    auth_tokens=set(cfg["tokens"]) if cfg["tokens"] is not None else None, enable_delete=cfg["delete"])
+    from pathlib import Path
+
+    from nauyaca.server.config import ServerConfig
+
+    side = base + "-cfg"          # next to the observed area, not inside it
+    os.makedirs(os.path.join(side, "capsule"), exist_ok=True)
+    try:
+        if via == "config":
+            sc = ServerConfig(document_root=Path(side) / "capsule", enable_titan=True, titan_upload_dir=updir, titan_max_upload_size=cfg["max"],
+                              titan_allowed_mime_types=None if cfg["types"] is None else list(cfg["types"]),
+                              titan_auth_tokens=None if cfg["tokens"] is None else list(cfg["tokens"]), titan_enable_delete=cfg["delete"])
+        else:
+            f = os.path.join(side, "config.toml")
+            with open(f, "w", encoding="utf-8") as fh:
+                fh.write(config_toml(updir, os.path.join(side, "capsule"), cfg))
+            sc = ServerConfig.from_toml(Path(f))
+        h = sc.get_upload_handler()
+    finally:
+        shutil.rmtree(side, ignore_errors=True)
+    if h is None:
+        raise RuntimeError("the configuration enables Titan but yields no upload handler")
+    return h
 
 
 def run_direct(base: str, case: dict) -> str:
@@ -66,7 +116,7 @@ def run_direct(base: str, case: dict) -> str:
     except ValueError:
         return "badline"
     req.content = bytes.fromhex(case["content"])
-    h = make_handler(base, case["cfg"])
+    h = make_handler(base, case["cfg"], case.get("via", "ctor"))
     T.set_fault(case.get("fault"), case.get("tag", TAG))
     try:
         resp = asyncio.run(h.handle_upload(req))
@@ -77,31 +127,58 @@ def run_direct(base: str, case: dict) -> str:
         T.set_fault(None)
 
 
+DENY_LINE = "53 Proxy request refused\r\n"
+
+
 def run_proto(base: str, case: dict) -> str:
     from nauyaca.protocol.response import GeminiResponse
     from nauyaca.server.protocol import GeminiServerProtocol
 
-    h = make_handler(base, case["cfg"])
+    h = make_handler(base, case["cfg"], case.get("via", "ctor"))
     data = case["line"].encode("utf-8") + b"\r\n" + bytes.fromhex(case["content"])
     cuts = sorted(set(c for c in case.get("cuts", []) if 0 < c < len(data)))
     chunks = [data[i:j] for i, j in zip([0] + cuts, cuts + [len(data)])]
     tr = T.FakeTransport()
 
     stall = case.get("stall")
+    timing = case.get("timing")
+
+    class Chain:
+        """a middleware chain that takes its time (a rate limiter's store, a certificate look-up, an access log on a slow disk)
+        and then lets the request through - or refuses it"""
+
+        async def process_request(self, url, ip, fp=None):
+            if timing["mw"] > 0:
+                await asyncio.sleep(timing["mw"])
+            return (False, DENY_LINE) if timing.get("deny") else (True, None)
+
+    async def settle(n=3):
+        for _ in range(n):
+            await asyncio.sleep(0)
 
     async def go():
-        proto = GeminiServerProtocol(lambda r: GeminiResponse(status=20, meta="text/gemini", body="x"), None, h)
+        loop = asyncio.get_running_loop()
+        proto = GeminiServerProtocol(lambda r: GeminiResponse(status=20, meta="text/gemini", body="x"), Chain() if timing else None, h)
         proto.connection_made(tr)
         for i, ch in enumerate(chunks):
             if stall is not None and i == stall + 1:
                 # the peer goes quiet for longer than the request timeout before sending the rest; what it sends afterwards
                 # still reaches data_received (sslproto's FLUSHING state reads once more after close())
-                asyncio.get_running_loop().advance(31)
-                for _ in range(3):
-                    await asyncio.sleep(0)
+                loop.advance(31)
+                await settle()
+            if timing and i == len(chunks) - 1 and timing["lead"] > 0:
+                # the request trickles in: its last piece arrives `lead` seconds after the connection was made
+                for _ in range(4):
+                    loop.advance(timing["lead"] / 4)
+                    await settle()
             proto.data_received(ch)
-            for _ in range(3):
-                await asyncio.sleep(0)
+            await settle()
+        if timing:
+            # time passes (in half-second steps) until the chain and the handler have certainly finished and every timer has fired
+            horizon = timing["lead"] + max(timing["mw"], 31.0) + 5
+            while loop.time() < horizon:
+                loop.advance(0.5)
+                await settle(6)
         for _ in range(30):
             if tr.closed:
                 break
@@ -110,7 +187,7 @@ def run_proto(base: str, case: dict) -> str:
 
     T.set_fault(case.get("fault"), case.get("tag", TAG))
     try:
-        if stall is None:
+        if stall is None and not timing:
             asyncio.run(go())
         else:
             from ..sim.srv import VLoop
@@ -209,10 +286,13 @@ class UploadFamily(Family):
                 return "E"
             return "|".join(cps(v) for v in x)
 
-        cfgs = ";".join([str(cfg["max"]), lst(cfg["types"]), lst(sorted(set(cfg["tokens"])) if cfg["tokens"] else []), str(int(cfg["delete"])), case.get("tag", TAG)])
         f = case.get("fault")
+        if f and f[0] == "fsize" and declared_sizes(case["line"]) and f[1] >= declared_sizes(case["line"])[-1]:
+            f = None          # room for everything that will be stored: no fault at all
+        cfgs = ";".join([str(cfg["max"]), lst(cfg["types"]), lst(sorted(set(cfg["tokens"])) if cfg["tokens"] else []), str(int(cfg["delete"])), case.get("tag", TAG)])
+        # (`fsize`: storage takes the first k bytes only - for the model the same as a write that fails after k bytes)
         fs = "-" if not f else {"mkdir": f"mkdir:{f[1] if len(f) > 1 else 0}", "write": f"write:{f[1] if len(f) > 1 else 0}", "open": "open",
-                                "rename": "rename", "unlink": "unlink"}[f[0]]
+                                "rename": "rename", "unlink": "unlink", "fsize": f"write:{f[1] if len(f) > 1 else 0}"}[f[0]]
         return "\t".join(["upload", self.mode, ";".join(ents), cfgs, cps(case["line"]), case["content"] or "-", fs])
 
     def expect(self, case, out):
@@ -250,6 +330,12 @@ class UploadFamily(Family):
         line, cfg = case["line"], case["cfg"]
         buf = bytes.fromhex(case["content"])
         desc = f"{line!r} (status {status}, fault {case.get('fault')})"
+        if case.get("via", "ctor") != "ctor":
+            desc += f" [handler built via {case['via']} from max={cfg['max']} types={cfg['types']!r} tokens={cfg['tokens']!r} delete={cfg['delete']}]"
+        if case.get("timing"):
+            tm = case["timing"]
+            desc += (f" [request complete {tm['lead']} s after the connection was made, middleware chain "
+                     f"{'refuses' if tm.get('deny') else 'allows'} after {tm['mw']} s]")
         outside = [d for d in diff if not (d[1] == UP or d[1].startswith(UP + "/"))]
         if outside:
             return ("outside-upload-dir", f"{desc} changed something outside the upload directory: {outside[:3]!r}")
@@ -321,7 +407,10 @@ class UploadFamily(Family):
         f = case.get("fault")
         d = obs["diff"]
         kind = "none" if not d else "+".join(sorted(set(x[0] for x in d)))
-        return f"{self.mode} {obs['status']} {case.get('cls', '?')} fault={f[0] if f else '-'} diff={kind}"
+        blank = bool(case["cfg"]["tokens"]) and not any(t.strip() for t in case["cfg"]["tokens"])
+        tm = case.get("timing")
+        tms = "" if not tm else f" lead={int(tm['lead'])} mw={'<' if tm['lead'] + tm['mw'] < 30 else '>'}30{'deny' if tm.get('deny') else ''}"
+        return f"{self.mode} {obs['status']} {case.get('cls', '?')} fault={f[0] if f else '-'} diff={kind} via={case.get('via', 'ctor')}{' blanktok' if blank else ''}{tms}"
 
 
 # ----------------------------------------------------------------------------------------------
@@ -431,9 +520,13 @@ def gen_path(rng: random.Random, ents) -> tuple[str, str]:
 
 
 def gen_request(rng: random.Random, ents, proto: bool):
-    cfg = {"max": rng.choice([8, 8, 16, 100, 2000]),
-           "types": rng.choice([None, None, None, None, [], ["text/plain"], ["text/gemini", "text/plain"], ["image/png"]]),
-           "tokens": rng.choice([None, None, None, None, [], [TOKEN], [TOKEN], ["", TOKEN], ["t1", "t2"]]),
+    # (lists that hold nothing but blank entries - an unset "${TITAN_TOKEN}" of a deployment template, a revoked token blanked
+    # out - are still lists: tokens ARE configured and no request can present one of them)
+    cfg = {"max": rng.choice([8, 8, 16, 100, 2000, 8, 16, 100, 2000, 20000]),
+           "types": rng.choice([None, None, None, None, None, None, [], ["text/plain"], ["text/plain"], ["text/gemini", "text/plain"], ["image/png"],
+                                ["image/png"], [""], [" "], ["", "text/plain"]]),
+           "tokens": rng.choice([None, None, None, None, None, None, [], [TOKEN], [TOKEN], [TOKEN], ["", TOKEN], ["t1", "t2"], ["t1", "t2"],
+                                 [""], [" "], ["", " "], ["\t"]]),
            "delete": rng.random() < 0.65}
     path, cls = gen_path(rng, ents)
     path = T.subst(path)
@@ -502,7 +595,7 @@ def gen_request(rng: random.Random, ents, proto: bool):
     line = "titan://h" + path + ";" + ";".join(params)
     sizes = declared_sizes(line)
     eff = sizes[-1] if sizes else size
-    body = bytes(rng.randrange(256) for _ in range(min(max(eff, 0), 4096)))
+    body = rng.randbytes(min(max(eff, 0), 20000))
     return cfg, line, body, eff, cls
 
 
@@ -512,13 +605,21 @@ def gen_fault(rng: random.Random, size: int):
         return None
     if size == 0:
         return ["unlink"] if r < 0.9 else ["rename"]
-    if r < 0.8:
+    if r < 0.72:
         return ["write", rng.choice([0, 1, max(size // 2, 0), max(size - 1, 0)])]
+    if r < 0.8:
+        # the storage has room for k < size bytes
+        return ["fsize", rng.choice([k for k in (0, 1, 1, size // 2, size - 1, size - 1) if 0 <= k < size])]
     if r < 0.85:
         return ["open"]
     if r < 0.93:
         return ["rename"]
     return ["mkdir", rng.choice([0, 0, 1, 2])]
+
+
+VIAS = ["ctor", "ctor", "config", "toml"]
+LEADS = [0, 0, 10, 25, 29]                                     # seconds; the request timeout is 30 s from connection_made
+CHAIN_DELAYS = [0, 0.25, 4.75, 19.75, 28.5, 31.25, 45, 100]    # seconds; never ending on the deadline itself
 
 
 FIXED_TREE = [["d", UP], ["d", "uploads-evil"], ["d", "out"], ["f", "out/secret", hexs(b"SECRET")], ["f", "uploads-evil/e", hexs(b"EVIL")],
@@ -557,6 +658,24 @@ def fixed_cases(mode: str):
     for name in ("p", "q", "r", "s", "t", "p/x", "d/secret", "din/x", "fin"):
         yield {"tree": PSEUDO_TREE, "cfg": OPEN, "line": f"titan://h/g/{name};size=7", "content": c, "fault": None, "cls": "pseudoloop+fixed"}
         yield {"tree": PSEUDO_TREE, "cfg": OPEN, "line": f"titan://h/g/{name};size=0", "content": "", "fault": None, "cls": "pseudoloop+fixed"}
+    # token / media-type lists that hold only blank entries, handler built by the configuration layer: nothing may get through
+    for toks in ([""], [" "], ["", " "]):
+        for via in ("ctor", "config", "toml"):
+            for line, body in (("titan://h/a;size=7", c), ("titan://h/a;size=7;token=", c), ("titan://h/nd/new;size=7;token=guess", c), ("titan://h/a;size=0", "")):
+                yield {"tree": FIXED_TREE, "cfg": {"max": 100, "types": None, "tokens": toks, "delete": True}, "line": line, "content": body, "fault": None,
+                       "cls": "existing+blanktok+fixed", "via": via}
+    for via in ("ctor", "config", "toml"):
+        yield {"tree": FIXED_TREE, "cfg": {"max": 100, "types": [""], "tokens": None, "delete": True}, "line": "titan://h/a;size=7", "content": c, "fault": None,
+               "cls": "existing+blanktype+fixed", "via": via}
+        yield {"tree": FIXED_TREE, "cfg": {"max": 100, "types": ["text/plain"], "tokens": [TOKEN], "delete": True}, "line": "titan://h/a;size=7;mime=text/plain;token=" + TOKEN,
+               "content": c, "fault": None, "cls": "existing+tok+fixed", "via": via}
+    # storage that takes only the first k bytes (the kernel reports a short count, the error would come with the next write)
+    for k in (0, 1, 3, 6):
+        yield {"tree": FIXED_TREE, "cfg": OPEN, "line": "titan://h/a;size=7", "content": c, "fault": ["fsize", k], "cls": "existing+fixed"}
+        yield {"tree": FIXED_TREE, "cfg": OPEN, "line": "titan://h/nd/x/f;size=7", "content": c, "fault": ["fsize", k], "cls": "newdirs+fixed"}
+    big = hexs(bytes(range(256)) * 64)
+    for k in (1, 8192, 16383):
+        yield {"tree": FIXED_TREE, "cfg": dict(OPEN, max=20000), "line": "titan://h/a;size=16384", "content": big, "fault": ["fsize", k], "cls": "existing+fixed"}
     # entries that carry a name the handler might pick for its temporary file (the predictable .NAME.PID.upload of
     # older revisions, and the name token_hex is made to return here): they must never be opened, replaced or removed
     col = [[["f", "uploads/.a.$PID.upload", hexs(b"PRECIOUS")]], [["f", "uploads/" + TMPNAME, hexs(b"PRECIOUS")]], [["d", "uploads/" + TMPNAME]],
@@ -583,7 +702,7 @@ class Direct(UploadFamily):
             ents = gen_tree(rng)
             for _ in range(6):
                 cfg, line, body, eff, cls = gen_request(rng, ents, False)
-                case = {"tree": ents, "cfg": cfg, "line": line, "content": hexs(body), "fault": gen_fault(rng, eff), "cls": cls}
+                case = {"tree": ents, "cfg": cfg, "line": line, "content": hexs(body), "fault": gen_fault(rng, eff), "cls": cls, "via": rng.choice(VIAS)}
                 yield case
                 count += 1
 
@@ -602,6 +721,15 @@ class Proto(UploadFamily):
             c["cuts"] = [5, 20]
             yield c
             count += 1
+        timed = []
+        for lead in LEADS[1:]:
+            for mw in CHAIN_DELAYS:
+                for line, body in (("titan://h/a;size=7", hexs(b"NEWDATA")), ("titan://h/nd/x/f;size=7", hexs(b"NEWDATA")), ("titan://h/a;size=0", "")):
+                    timed.append({"tree": FIXED_TREE, "cfg": OPEN, "line": line, "content": body, "fault": None, "cls": "existing+fixed+timed", "cuts": [5, len(line) + 3],
+                                  "timing": {"lead": lead, "mw": mw, "deny": False}})
+        for c in self.share(timed):
+            yield c
+            count += 1
         while count < n:
             ents = gen_tree(rng)
             for _ in range(6):
@@ -617,12 +745,18 @@ class Proto(UploadFamily):
                     buf, cls2 = body[: max(0, len(body) - rng.choice([1, 1, 2, len(body)]))], "short"
                 total = len(line.encode("utf-8")) + 2 + len(buf)
                 cuts = sorted(rng.sample(range(1, max(total, 2)), k=min(rng.choice([0, 0, 1, 2, 4]), max(total - 1, 0))))
-                case = {"tree": ents, "cfg": cfg, "line": line, "content": hexs(buf), "fault": gen_fault(rng, eff), "cls": cls + "+" + cls2, "cuts": cuts}
+                case = {"tree": ents, "cfg": cfg, "line": line, "content": hexs(buf), "fault": gen_fault(rng, eff), "cls": cls + "+" + cls2, "cuts": cuts,
+                        "via": rng.choice(VIAS)}
                 late = [k for k, c in enumerate(cuts) if c >= len(line.encode("utf-8")) + 2]
                 if late and rng.random() < 0.5:
                     # the peer stalls past the request timeout at one of the cuts inside the content
                     case["stall"] = rng.choice(late)
                     case["cls"] += "+stall"
+                elif rng.random() < 0.45:
+                    # time: the last piece of the request arrives `lead` seconds after the connection was made (always within the
+                    # request timeout), and the middleware chain in front of the upload handler takes `mw` seconds to answer
+                    case["timing"] = {"lead": rng.choice(LEADS), "mw": rng.choice(CHAIN_DELAYS), "deny": rng.random() < 0.2}
+                    case["cls"] += "+timed"
                 yield case
                 count += 1
 
@@ -635,11 +769,15 @@ class Proto(UploadFamily):
     def model(self, case):
         # what had arrived when the peer went quiet decides: a complete request was dispatched (what follows is ignored,
         # C07), an incomplete one is answered 40 at the deadline and what follows is ignored as well
+        if (case.get("timing") or {}).get("deny"):
+            return None       # the model has no middleware chain: a chain that lets the request through is no chain, one that refuses is the oracle's
         return super().model(self._before_stall(case) if case.get("stall") is not None else case)
 
     def expect(self, case, out):
         e = super().expect(case, out)
-        if case.get("stall") is not None and e.get("status") == "pending":
+        # (a request that was complete within the time limit is carried out however long the chain takes; one that never
+        # becomes complete is answered 40 when the limit is reached)
+        if (case.get("stall") is not None or case.get("timing")) and e.get("status") == "pending":
             return {"status": "40", "diff": []}
         return e
 
